@@ -49,6 +49,13 @@ def cells(tier, seed):
             for N in (1, 3):
                 out.append({"ak": ak, "Dx": Dx, "Dy": Dy, "Da": Da, "Dk": Dk, "mode": "bounds",
                             "N": N, "reps": reps, "group": [ak, Dx, Dy, Da, Dk, N], "cost": 6.0})
+        # nearly collinear rows of A: cond(AA') = 1e4, the edge of the input domain
+        out.append({"ak": ak, "Dx": 1, "Dy": 2, "Da": 2, "Dk": 1, "mode": "bounds", "N": 1,
+                    "A_kappa": 1e4, "reps": reps, "group": [ak, "Acond"], "cost": 6.0})
+        if ak in ("het_exp", "het_cosh"):
+            # p(x) far out: |w'x + w0| of 50 .. 90 (noise variances of e^50 .. e^90)
+            out.append({"ak": ak, "Dx": 1, "Dy": 2, "Da": 2, "Dk": 1, "mode": "bounds", "N": 1,
+                        "far_x": True, "reps": reps, "group": [ak, "far"], "cost": 4.0})
     return out
 
 
@@ -59,7 +66,34 @@ def truth(t, mu_x, S_x, y, Dx):
 
     def f(X):
         S = build.het_cov(t, X)
+        if np.max(np.abs(S)) > 1e12:
+            return f_mp(X, S)
         return orc.mvn_logpdf_elem(np.tile(y[None], (X.shape[0], 1)), X @ M.T + b[None], S)
+
+    def f_mp(X, S):
+        # noise variances of e^50 and more: the log-density in 50-digit arithmetic
+        import mpmath as mp
+
+        mp.mp.dps = 60
+        out = []
+        A = mp.matrix(t.A[0].tolist())
+        AAt = A * A.T
+        link = {"het_exp": mp.exp, "het_cosh": lambda h: mp.cosh(h) - 1,
+                "het_step": lambda h: mp.mpf(1 if h >= 0 else 0),
+                "het_relu": lambda h: max(h, mp.mpf(0))}[t.kind]
+        for n in range(X.shape[0]):
+            # the covariance assembled in high precision as well (in float64 the homoscedastic
+            # part is lost next to e^50 and the matrix becomes numerically singular)
+            Sm = AAt.copy()
+            for k in range(t.Dk):
+                h = sum(mp.mpf(float(t.W[k, 1 + j])) * mp.mpf(float(X[n, j]))
+                        for j in range(X.shape[1])) + mp.mpf(float(t.W[k, 0]))
+                ak_ = A[:, k]
+                Sm = Sm + link(h) * (ak_ * ak_.T)
+            r = mp.matrix((y - (X[n] @ M.T + b)).tolist())
+            q = (r.T * (Sm ** -1) * r)[0]
+            out.append(float(-(q + len(y) * mp.log(2 * mp.pi) + mp.log(mp.det(Sm))) / 2))
+        return np.array(out)
 
     if Dx == 1:
         w, w0 = t.W[:, 1], t.W[:, 0]
@@ -131,20 +165,32 @@ def run_cell(cell, rec, seed):
     for rep in range(cell["reps"]):
         rng = gen.rng_for(seed, "C17", ak, Dx, Dy, Da, Dk, cell.get("N"), rep)
         for attempt in range(20):
-            c, t = build.mk_approx(ak, rng, Dy, Dx, Dk, Da=Da, wscale=0.8)
-            if gen.in_domain((t.A[0] @ t.A[0].T)[None], kmax=1e3):
+            c, t = build.mk_approx(ak, rng, Dy, Dx, Dk, Da=Da, wscale=0.8,
+                                   A_kappa=cell.get("A_kappa"))
+            if gen.in_domain((t.A[0] @ t.A[0].T)[None], kmax=1.1e4 if cell.get("A_kappa") else 1e3):
                 break
             rec.count("out_of_domain")
-        info = {"ak": ak, "Dx": Dx, "Dy": Dy, "Da": Da, "Dk": Dk, "regime": regime}
-        rec.cell([ak, Dx, Dy, Da, Dk, cell["mode"], cell.get("N")], True)
+        info = {"ak": ak, "Dx": Dx, "Dy": Dy, "Da": Da, "Dk": Dk, "regime": regime,
+                "A_kappa": cell.get("A_kappa"), "far_x": bool(cell.get("far_x"))}
+        rec.cell([ak, Dx, Dy, Da, Dk, cell["mode"], cell.get("N"), cell.get("A_kappa"),
+                  cell.get("far_x")], True)
         coherence(rec, c, t, rng, info, regime)
         if cell["mode"] != "bounds":
             continue
         N = cell["N"]
         p, tp = build.mk_pdf(rng, N, Dx, kappa=10.0, scale=0.5)
+        if cell.get("far_x"):
+            # one prior, centred where the linear predictor of the noise unit is 50 .. 90
+            w1, w01 = t.W[0, 1], t.W[0, 0]
+            h_t = float(rng.uniform(50, 90)) * float(rng.choice([-1.0, 1.0]))
+            mu_far = np.array([[(h_t - w01) / w1]])
+            tp = build.Truth(mu=mu_far, Sigma=np.array([[[0.01 / w1 ** 2]]]))
+            p = build.lib().pdf.GaussianPDF(Sigma=J(tp.Sigma), mu=J(tp.mu))
         # observations near the predictive mean
         y = (tp.mu @ t.M[0].T + t.b[0][None]) + gen.vec(rng, N, Dy, scale=1.0)
         scales = (1.0, 0.3, 0.1, 0.01, 0.001) + ((0.0,) if ak in ("het_exp", "het_cosh") else ())
+        if cell.get("far_x"):
+            scales = (1.0,)
         gaps = {}
         for eps in scales:
             tt = scaled(t, eps)
